@@ -175,6 +175,7 @@ type C11Plan struct {
 	Short     bool   `json:"short,omitempty"` // all sequences of length <= 2 (+ sampled 3)
 	NRandom   int    `json:"n_random,omitempty"`
 	HistSeed  uint64 `json:"hist_seed,omitempty"`
+	Deep3     bool   `json:"deep3,omitempty"` // bounded-exhaustive: every history a, b, package(f) over the whole alphabet
 }
 
 type Client struct {
